@@ -29,7 +29,6 @@ Viol == {n \in {"C13_ExactlyOnceInOrder", "C13_Budget", "C13_NewestKept", "C13_N
            \/ n = "C13_Budget" /\ ~StepBudget
            \/ n = "C13_NewestKept" /\ ~StepNewestKept
            \/ n = "C13_NoOverwrite" /\ ~StepNoOverwrite}
-ToSet(s) == {s[k] : k \in DOMAIN s}
 
 InitT ==
   /\ tid \in 1..Len(Traces) /\ i = 0
